@@ -50,6 +50,8 @@ class C17(Prop):
         "RxModel.GenTie.Subscription": [],
         "RxModel.GenTie.Subscriber": [],
         "RxModel.GenTie.SubscriberThreads": [],
+        # merge_all: every started inner observable is appended to THE composite the operator returned
+        "RxModel.GenTie.MergeAll": [], "RxModel.GenTie.MergeAllThreads": [],
     }
 
     def cases(self, tier, seed):
@@ -84,6 +86,23 @@ class C17(Prop):
             out.append(Case("time", fl, fields, evs, {"kind": "time-" + mode}))
         # composite subscriptions on their own: append / unsubscribe / is_closed histories
         out += cg.cases(random.Random(seed + 1717), tier, MODEL)
+        # the composite merge_all hands out (one entry per started inner observable): is_closed() of the merged
+        # subscription sampled after every event of the flatten population (harness field `qclosed`; the model lines are
+        # compared under the kinds projection, the answer is judged by the oracle) — seed C17-10 moved the composite into
+        # the first queued start-closure, every later inner landed in an orphan
+        import importlib
+        try:
+            c05 = importlib.import_module("vlib.props.c05").PROP
+            cs = [c for c in c05.cases("quick", seed) if c.suite == "flatten" and not c05.compare_from(c)]
+            rngF = random.Random(seed + 1718)
+            rngF.shuffle(cs)
+            for c in cs[: 4000 if tier == "quick" else 20000]:
+                d = c.copy()
+                d.fields = [("qclosed", ["1"])] + list(d.fields)
+                d.meta = {"kind": "flatten-closed"}
+                out.append(d)
+        except Exception as ex:            # pragma: no cover
+            print(f"note: C17 skips the flatten population: {ex}")
         return out
 
     def corpus(self):
@@ -102,6 +121,24 @@ class C17(Prop):
     def oracle(self, case, lines, model_lines=None):
         if case.suite == "composite":
             return cg.oracle(case, lines)
+        if case.suite == "flatten":
+            closed = None
+            for k, e in enumerate(case.events):
+                b = lines.get(k)
+                if b is None or not b.startswith("o="):
+                    continue        # (PANIC / RELOCK of a limit the C05 oracle excludes: not this property's business)
+                outs, kv = tg.parse_suffix(b)
+                if closed is not None and outs:
+                    return {"kind": "delivery-after-closed", "event": k,
+                            "detail": f"is_closed() answered true after event {closed}; later: {b}"}
+                v = kv.get("closed")
+                if closed is not None and v == 0:
+                    return {"kind": "closed-not-monotone", "event": k, "detail": b}
+                if e[0] == "unsub" and v == 0:
+                    return {"kind": "open-after-unsubscribe", "event": k, "detail": b}
+                if v == 1 and closed is None:
+                    closed = k
+            return None
         from .c19 import handle_section_failure
         f = handle_section_failure(case, lines)
         if f:
@@ -137,11 +174,16 @@ class C17(Prop):
     def shrink_candidates(self, case):
         if case.suite == "composite":
             return cg.shrink_candidates(case)
+        if case.suite == "flatten":
+            import importlib
+            return importlib.import_module("vlib.props.c05").PROP.shrink_candidates(case)
         return tg.time_shrink(case) if case.suite == "time" else super().shrink_candidates(case)
 
     def signature(self, case, failure):
         if case.suite == "composite":
             return f"{failure['kind']}|composite"
+        if case.suite == "flatten":
+            return f"{failure['kind']}|flatten"
         if case.suite != "time":
             return super().signature(case, failure)
         node, hs = case.field("pipe")[0], []
